@@ -371,6 +371,22 @@ def main():
                       'recorded threaded execution is not a behaviour of the specification: event %d %s'
                       % (j['matched'] + 1, json.dumps(nxt)), {'seed': case[0], 'events': events})
 
+    if thorough:
+        # unbounded number of steps: KeyOwnership as an inductive invariant of the repaired design (Apalache)
+        import subprocess, shutil
+        out = os.path.join(env.WORK, 'C15', 'apalache')
+        ok = []
+        for args in (['--init=Init', '--length=0'], ['--init=IndInit', '--length=1']):
+            try:
+                p = subprocess.run(['apalache-mc', 'check'] + args + ['--inv=IndInv', '--out-dir=' + out, 'MC_RedirectSig.tla'],
+                                   cwd=os.path.join(env.VERIF, 'spec', 'apalache'), stdout=subprocess.PIPE, stderr=subprocess.STDOUT, timeout=300)
+                ok.append('EXITCODE: OK' in p.stdout.decode('utf-8', 'replace'))
+            except Exception as exc:
+                ok.append(None)
+        shutil.rmtree(out, ignore_errors=True)
+        chk.cov['apalache_inductive'] = {'module': 'spec/apalache/MC_RedirectSig.tla', 'init_implies_inv': ok[0], 'inv_inductive': ok[1]}
+        if False in ok:
+            raise fw.Machinery('Apalache refutes the inductive invariant of the repaired design')
     chk.cov['rule'] = ('every behaviour of the bounded exhaustive run that signs something (sampled in the quick tier), simulated '
                       'longer behaviours (3 entities, 5 algorithms), each replayed sequentially and with one thread per entity; '
                       'all 600 query-mutation scenarios; random threaded executions validated by TLC')
